@@ -31,7 +31,7 @@ RULE = ("directed: matrix model (11 dependency-path kinds x {direct, through cac
         "held before it (an 'effective' edit); distinct = distinct (edit-kind sequence, model seed)")
 ASSUMPTIONS = ["fresh-replay model is built by the same library (C01 ties values to the reference evaluator)",
                "exceptions are compared by the class of the original exception"]
-MIN_COUNTERS = {"quick": {"queries_compared": 20000, "effective_edits": 300, "edits": 1500},
+MIN_COUNTERS = {"quick": {"queries_compared": 20000, "effective_edits": 200, "edits": 1500},
                 "thorough": {"queries_compared": 500000, "effective_edits": 8000, "edits": 40000}}
 SHARD_TIMEOUT = {"quick": 900, "thorough": 5400}
 
